@@ -98,7 +98,9 @@ func spkUniverseFor(prop string, thorough bool) *spkUniverse {
 		}
 		u.SvcVars = []spkSvcVariant{u.SvcVars[0], u.SvcVars[1], u.SvcVars[2], u.SvcVars[3], u.SvcVars[4],
 			{"lb-c", v1.ServiceTypeLoadBalancer, false, []string{"10.0.1.200"}}, {"lb-poolb", v1.ServiceTypeLoadBalancer, false, []string{"10.0.2.7"}},
-			{"lb-poolc", v1.ServiceTypeLoadBalancer, false, []string{"10.0.3.7"}}}
+			{"lb-poolc", v1.ServiceTypeLoadBalancer, false, []string{"10.0.3.7"}},
+			// dual-stack with the IPv6 address listed first (the per-family aggregation lengths must not depend on the order)
+			{"lb-a6+a", v1.ServiceTypeLoadBalancer, false, []string{"fc00:1::1", "10.0.1.1"}}}
 		u.Svcs = []string{"s1", "s2", "s3", "s4"}
 		u.SvcVarsFor = map[int][]int{2: {1, 6}, 3: {1, 7}}
 		u.Configs = append(u.Configs, spkConfig{Name: "bgp-pool-a-only+pool-b-unadvertised", Pools: []metallbv1beta1.IPAddressPool{poolA, poolB}, BGPAdvs: []metallbv1beta1.BGPAdvertisement{advB}, Peers: peers})
